@@ -32,7 +32,7 @@ def shards(tier, seed):
     q = tier == "quick"
     out = [{"kind": "catalogue", "seed": seed}, {"kind": "handbuilt", "seed": seed}]
     for s in shard_seeds(seed, 8, "C09a"):
-        out.append({"kind": "compiled", "seed": s, "n": 40 if q else 1000, "depth": 3, "cfg": {"labels": False}})
+        out.append({"kind": "compiled", "seed": s, "n": 90 if q else 1000, "depth": 3, "cfg": {"labels": False}})
     for s in shard_seeds(seed, 3, "C09f"):
         out.append({"kind": "flat", "seed": s, "n": 40 if q else 1000})
     for s in shard_seeds(seed, 2, "C09u"):
